@@ -13,13 +13,16 @@ OK_BEHAVIOURS = ("ok", "near")
 CONFIGS = ["highs", "cbc"]
 VARMODES = ["unset", "half", "garbage"]
 GRID = [(c, b, "unset") for c in CONFIGS for b in BEHAVIOURS] + [("none", "ok", "unset")]
+# both back-ends present: HiGHS is selected and shows the listed behaviour while the bundled solver behind it
+# (pulp.LpSolverDefault) works, raises or gives up - the selected solver's fault must lead to FCFS whatever the other does
+BOTH_GRID = [(b, d) for b in BEHAVIOURS for d in ("ok", "raise", "notsolved")]
 RULE = (
     "Fault injection at the PuLP API boundary from the harness process (no repo hook): pulp.HiGHS_CMD is replaced "
     "by a scripted class answering available()=True/False, pulp.LpSolverDefault by a scripted LpSolver or None. "
     "A scripted solver either delegates to the real bundled CBC (ok), delegates and reports the integer variables only "
     "within the integrality tolerance as real solvers do (near: 0.999999998 for 1), raises PulpSolverError, or assigns status "
     "NotSolved/Infeasible/Unbounded/Undefined leaving the variables unset, half-set or set to garbage. For every "
-    "generated structure the complete 15-cell grid {HiGHS selected, CBC selected} x 7 behaviours + {no solver} is "
+    "generated structure the complete 15-cell grid (plus 21 cells with BOTH back-ends present: HiGHS selected with each of the 7 behaviours x the bundled solver behind it working / raising / giving up) {HiGHS selected, CBC selected} x 7 behaviours + {no solver} is "
     "enumerated through BpSeq.dot_bracket (fresh object per cell) and through convert_to_dot_bracket(solver); then "
     "a drawn fault sequence of 1-4 steps is run on ONE shared scripted solver. Oracle: never raises; result passes "
     "the C01 lossless oracle; faulty step => structure == FCFS of a fresh object; ok step => C02 optimal score. "
@@ -107,6 +110,13 @@ def _run_cell(seq, pairs, config, script, via):
         elif config == "cbc":
             pulp.HiGHS_CMD = NoHighs
             pulp.LpSolverDefault = shared
+        elif config.startswith("both:"):
+            class FakeHighs2:
+                def __new__(cls, *a, **k):
+                    return shared
+
+            pulp.HiGHS_CMD = FakeHighs2
+            pulp.LpSolverDefault = Scripted([(config.split(":", 1)[1], "unset")])
         elif config == "none":
             pulp.HiGHS_CMD = NoHighs
             pulp.LpSolverDefault = None
@@ -178,6 +188,9 @@ def oracle(case) -> list:
     for config, beh, varmode in GRID:
         for via in ("property", "convert"):
             cell(config, [(beh, varmode)], via, f"{via}:{config}:{beh}")
+    for beh, dflt in BOTH_GRID:
+        for via in ("property", "convert"):
+            cell(f"both:{dflt}", [(beh, "unset")], via, f"{via}:highs+default-{dflt}:{beh}")
     # drawn fault sequence on one shared solver
     if script:
         cfg = script[0][0]
